@@ -14,10 +14,10 @@ func init() {
 	register(&propertyDef{
 		id:    "C02",
 		title: "steps start only after their dependencies, with the data those produced",
-		rules: []ruleFunc{c02R1, c02R2, c02R3, c02R4, c02R5, c02R6},
+		rules: []ruleFunc{c02R1, c02R2, c02R3, c02R4, c02R5, c02R6, c02R7, c02R8, c02R9},
 		decided: "every expression kind that is resolved at run time is also wired into the DAG at prepare time (walker agreement, R1); every dependency of an expression, every lifecycle ordering and every one-of option becomes a DAG connection on every loop iteration (R2); " +
 			"every stage input field and every workflow output is walked for dependencies and is what the node later evaluates (R3); resolution, data publication and notification happen in that order in one critical section (R4); " +
-			"all DAG/data-model helpers run under the run lock (R5); the step receives the resolved, validated data of its own node (R6).",
+			"all DAG/data-model helpers run under the run lock (R5); the step receives the resolved, validated data of its own node (R6). The tree walkers descend into every element of maps and lists (R7). Shared: the run path writes nothing into prepared objects shared by all runs (R8 = C14.R1); starting.started is published only after the plugin executor was launched (R9 = C12.R13).",
 		notDecided: "that expressions.Dependencies lists all references of an expression; dgraph's readiness computation; equality of the received values with a reference evaluation.",
 	})
 }
@@ -431,11 +431,18 @@ func c02R4(c *Ctx) {
 			outVal = p
 		}
 	}
+	if (outID == nil || outVal == nil) && len(fn.Params) == 6 {
+		// renamed parameters: (l, stepID, previousStage, previousStageOutputID *string, previousStageOutput *any, wg)
+		if fn.Params[3].Type().String() == "*string" && fn.Params[4].Type().String() == "*any" {
+			outID, outVal = fn.Params[3], fn.Params[4]
+		}
+	}
 	if outID == nil || outVal == nil {
 		c.unresolved("parameters previousStageOutputID/previousStageOutput of onStageComplete")
 		return
 	}
 	n := 0
+	helpers := c.singleSiteHelpers(fn) // extracted helpers (one call site each): their stores count as onStageComplete's
 	eachInstr(fn, func(r instrRef) {
 		cc := callCommon(r.I)
 		if cc == nil || !cc.IsInvoke() || cc.Method.Name() != "ResolveNode" {
@@ -450,9 +457,28 @@ func c02R4(c *Ctx) {
 			return
 		}
 		n++
-		isStore := func(in ssa.Instruction) bool {
+		isStoreDirect := func(in ssa.Instruction) bool {
 			mu, ok := in.(*ssa.MapUpdate)
 			return ok && derivesFrom(mu.Value, isValue(outVal))
+		}
+		publishing := map[*ssa.Function]bool{}
+		for _, h := range helpers {
+			has := false
+			eachInstr(h, func(r2 instrRef) {
+				if isStoreDirect(r2.I) {
+					has = true
+				}
+			})
+			if has && c.findPath(h, nil, isStoreDirect, isReturn) == nil {
+				publishing[h] = true
+			}
+		}
+		isStore := func(in ssa.Instruction) bool {
+			if isStoreDirect(in) {
+				return true
+			}
+			call, ok := in.(*ssa.Call)
+			return ok && call.Common().StaticCallee() != nil && publishing[call.Common().StaticCallee()]
 		}
 		isMark := func(in ssa.Instruction) bool {
 			call, ok := in.(*ssa.Call)
@@ -483,7 +509,37 @@ func c02R4(c *Ctx) {
 			prevStage = p
 		}
 	}
-	keyPath := func(m ssa.Value) []ssa.Value {
+	if (stepIDp == nil || prevStage == nil) && len(fn.Params) == 6 && fn.Params[1].Type().String() == "string" && fn.Params[2].Type().String() == "*string" {
+		stepIDp, prevStage = fn.Params[1], fn.Params[2]
+	}
+	var keyPath func(m ssa.Value) []ssa.Value
+	keyPath = func(m ssa.Value) []ssa.Value {
+		// a fresh map that is itself stored into the data model: its path is the path of that store
+		if mm, ok := m.(*ssa.MakeMap); ok && mm.Referrers() != nil {
+			for _, ref := range *mm.Referrers() {
+				var holder *ssa.MapUpdate
+				switch y := ref.(type) {
+				case *ssa.MapUpdate:
+					if y.Value == ssa.Value(mm) {
+						holder = y
+					}
+				case *ssa.MakeInterface:
+					if y.Referrers() != nil {
+						for _, r2 := range *y.Referrers() {
+							if mu2, ok := r2.(*ssa.MapUpdate); ok && mu2.Value == ssa.Value(y) {
+								holder = mu2
+							}
+						}
+					}
+				}
+				if holder != nil {
+					if kp := keyPath(holder.Map); kp != nil {
+						return append(append([]ssa.Value{}, kp...), holder.Key)
+					}
+				}
+			}
+			return nil
+		}
 		var keys []ssa.Value
 		v := m
 		for i := 0; i < 12; i++ {
@@ -498,6 +554,11 @@ func c02R4(c *Ctx) {
 			case *ssa.Extract:
 				v = x.Tuple
 				continue
+			case *ssa.Parameter:
+				if arg, ok := paramBinding[x]; ok {
+					v = arg
+					continue
+				}
 			}
 			break
 		}
@@ -507,7 +568,11 @@ func c02R4(c *Ctx) {
 		return keys
 	}
 	nPub := 0
-	eachInstr(fn, func(r instrRef) {
+	var pubInstrs []instrRef
+	for _, f := range append([]*ssa.Function{fn}, c.singleSiteHelpers(fn)...) {
+		eachInstr(f, func(r instrRef) { pubInstrs = append(pubInstrs, r) })
+	}
+	forEachRef(pubInstrs, func(r instrRef) {
 		mu, ok := r.I.(*ssa.MapUpdate)
 		if !ok {
 			return
@@ -664,4 +729,100 @@ func sameItem(a, b ssa.Value) bool {
 		}
 	}
 	return false
+}
+
+func forEachRef(rs []instrRef, f func(instrRef)) {
+	for _, r := range rs {
+		f(r)
+	}
+}
+
+// C02.R7 the tree walkers visit every element.
+// Each walker recurses over the elements of maps and lists. In every loop of a walker (or of a helper on its recursion
+// cycle) that contains the recursive descent, an iteration either performs the descent or leaves the function with an
+// error: an element that is skipped is not wired / not evaluated / not type-checked / not accepted.
+func c02R7(c *Ctx) {
+	const rule = "C02.R7"
+	c.explain("C02.R7 in every loop over the elements of a map or list inside the expression-tree walkers (prepareDependencies, resolveExpressions, createTypeStructure, infer.Type and its helpers, checkAndConvert, yamlBuildExpressions) each iteration passes the recursive descent into the element or leaves with an error: no element kind is silently skipped")
+	roots := []*ssa.Function{
+		c.Fn("(*workflow.executor).prepareDependencies"),
+		c.Fn("(*workflow.loopState).resolveExpressions"),
+		c.Fn("(*workflow.executor).createTypeStructure"),
+		c.Fn("infer.Type"),
+		c.Fn("(*workflow.anySchemaWithExpressions).checkAndConvert"),
+		c.Fn("workflow.yamlBuildExpressions"),
+	}
+	g := c.CG()
+	n := 0
+	done := map[*ssa.Function]bool{}
+	for _, root := range roots {
+		if root == nil {
+			continue
+		}
+		// the recursion family of the root: functions reachable from it that reach it back
+		down := g.reach([]*ssa.Function{root}, false, false)
+		var family []*ssa.Function
+		for f := range down {
+			if _, back := g.reach([]*ssa.Function{f}, false, false)[root]; back {
+				family = append(family, f)
+			}
+		}
+		inFamily := map[*ssa.Function]bool{}
+		for _, f := range family {
+			inFamily[f] = true
+		}
+		descends := func(in ssa.Instruction) bool {
+			if _, ok := in.(*ssa.Call); !ok {
+				return false
+			}
+			for _, callee := range g.Callees(in) {
+				if inFamily[callee] {
+					return true
+				}
+			}
+			return false
+		}
+		sort.Slice(family, func(i, j int) bool { return c.fnName(family[i]) < c.fnName(family[j]) })
+		for _, f := range family {
+			if done[f] {
+				continue
+			}
+			done[f] = true
+			k := 0
+			for _, li := range loopsOf(f) {
+				has := false
+				for b := range li.Blocks {
+					for _, in := range b.Instrs {
+						if descends(in) {
+							has = true
+						}
+					}
+				}
+				if !has || li.Body == nil {
+					continue
+				}
+				n++
+				k++
+				key := fmt.Sprintf("walker-loop@%s#%d", c.fnName(f), k)
+				p := c.iterationSkips(li, descends)
+				c.verdict(p == nil, rule, key, c.blockPos(li.Header), "every element is descended into (or the walk ends with an error)",
+					"an iteration of this loop can go on to the next element without descending into the current one: expressions inside the skipped element are not "+walkerEffect(c.fnName(root)), p...)
+			}
+		}
+	}
+	c.minCount(rule, "element loops in the tree walkers", n, 8)
+}
+
+func walkerEffect(root string) string {
+	switch {
+	case strings.Contains(root, "prepareDependencies"):
+		return "wired into the DAG (the consumer can run before their producers)"
+	case strings.Contains(root, "resolveExpressions"):
+		return "evaluated (the step receives expression objects)"
+	case strings.Contains(root, "createTypeStructure"), strings.Contains(root, "infer.Type"):
+		return "type-checked against the schema they feed (an ill-typed workflow is accepted)"
+	case strings.Contains(root, "checkAndConvert"):
+		return "validated"
+	}
+	return "converted"
 }
